@@ -145,7 +145,7 @@ func (o op) skeleton() string {
 			sh = "1"
 		}
 		return fmt.Sprintf("W\t%d\t%s\t%s", o.s, sh, encCmds(o.cmds))
-	case "B", "R", "Y", "O":
+	case "B", "R", "Y", "O", "F":
 		return fmt.Sprintf("%s\t%d\t%x\t%x", o.kind, o.s, o.t, o.i)
 	case "S":
 		return fmt.Sprintf("S\t%d\t%x", o.s, o.i)
@@ -238,7 +238,7 @@ func genTrace(r *hx.Rng, eng string, n int, small bool) trace {
 			if r.Chance(0.3) {
 				tr.ops = append(tr.ops, op{kind: "R", s: s, t: k.t, i: k.i}) // repeated restore
 			}
-		case c < 86:
+		case c < 84:
 			if pend[1-s] || (!small && nb[1-s] >= 8) {
 				continue
 			}
@@ -249,10 +249,23 @@ func genTrace(r *hx.Rng, eng string, n int, small bool) trace {
 			if r.Chance(0.7) {
 				tr.ops = append(tr.ops, op{kind: "R", s: 1 - s, t: k.t, i: k.i})
 			}
-		case c < 90:
+		case c < 86:
 			k, _ := pick(s)
 			tr.ops = append(tr.ops, op{kind: "O", s: s, t: k.t, i: k.i})
-		case c < 94:
+		case c < 91:
+			// fetch through PrepareSnapshot from the other store: only names the source really holds
+			// (a peer without the backup makes PrepareSnapshot retry for seconds)
+			if small || pend[1-s] || len(made[1-s]) == 0 || nb[s] >= 8 {
+				continue
+			}
+			k := made[1-s][r.Pick(len(made[1-s]))]
+			tr.ops = append(tr.ops, op{kind: "F", s: s, t: k.t, i: k.i})
+			made[s] = append(made[s], k)
+			nb[s]++
+			if r.Chance(0.8) {
+				tr.ops = append(tr.ops, op{kind: "R", s: s, t: k.t, i: k.i})
+			}
+		case c < 95:
 			tr.ops = append(tr.ops, op{kind: "X", s: s})
 		case c < 97:
 			if eng == "mem" {
